@@ -25,17 +25,29 @@ def chunk_map_closures(facts, fn):
     names = [t["f"].get("name") for _, t in fn.calls()]
     if not (set(names) & CHUNKERS) or not (set(names) & REDUCERS):
         return []
+    red = "sum" if "sum" in names and "product" not in names else ("product" if "product" in names and "sum" not in names else None)
     out = []
     for bb, t in fn.calls():
         if t["f"].get("name") in ("map", "map_with", "map_init"):
             for cid in closure_args(fn, t):
                 c = facts.get(cid, fn.unit)
                 if c is not None:
-                    out.append((bb, t, c))
+                    out.append((bb, t, c, red))
     return out
 
 
-def seeded_upvars(clo):
+# operations through which a captured value may legitimately enter a per-chunk result: for a sum of
+# per-chunk values, a captured *factor* (x * c, c^i) distributes over the sum; for a product, a
+# captured *summand* does not arise.  Only flows that bypass these operations make the combined result
+# contain the captured value once per chunk.
+NEUTRAL = {
+    "sum": {"mul", "mul_assign", "pow", "square", "square_in_place", "pow_with_table"},
+    "product": set(),
+    None: set(),
+}
+
+
+def seeded_upvars(clo, reduction=None):
     """indices of captured variables of the closure's return type that flow into its return value"""
     ret_ty = peel(clo.local_ty(0))
     ups = clo.d.get("upvars", [])
@@ -43,7 +55,13 @@ def seeded_upvars(clo):
     if not cand:
         return []
     dep = DF.Dep(clo)
-    sl = dep.slice([0])
+    neutral = NEUTRAL.get(reduction, set())
+
+    def stop(l):
+        evs = dep.events.get(l, [])
+        calls = [e for e in evs if e[0] == "call"]
+        return bool(calls) and all(e[2]["f"].get("name") in neutral for e in calls)
+    sl = dep.slice([0], stop=stop if neutral else None)
     hits = set()
     for bi, si, s in clo.stmts():
         r = s.get("r")
@@ -86,10 +104,10 @@ def check_chunks(rule, facts, units, crates=None, path_filter=None):
             continue
         if "::tests::" in fn.id or "::test::" in fn.id:
             continue
-        for bb, t, clo in chunk_map_closures(facts, fn):
+        for bb, t, clo, red in chunk_map_closures(facts, fn):
             n += 1
             key = "%s/%s|%s|%s" % (fn.unit, fn.crate, fn.id[-110:], clo.id.rsplit("::", 1)[-1])
-            hits = seeded_upvars(clo)
+            hits = seeded_upvars(clo, red)
             if hits:
                 rule.bad(key, "per-chunk closure folds a captured value of the accumulator type (%s) into its result; with k chunks the combined product/sum contains it k times, so the result depends on the number of chunks" % peel(clo.local_ty(0))[-60:], "%s:%s" % (clo.d.get("file"), clo.d.get("line")))
             else:
